@@ -85,3 +85,8 @@ def search(ctx, broken):
 
 def replay(ctx, payload):
     return replay_parse(ctx, payload, oracle)
+
+
+def still_fails(ctx, t):
+    a, y, _ = pyref.parse_answer(t, want_yields=True)
+    return oracle(t, a, y, {}) is not None
